@@ -327,6 +327,16 @@ func runCheck(opt *checkOpts) int {
 			a.worst.Attempts = append(a.worst.Attempts, Attempt{Solver: "witness", Verdict: "holds", Out: "the recorded failing input no longer fails, but the obligation is still not provable: a different violation\n" + wout})
 		}
 		violations++
+		if !opt.noReplay && a.worst != nil {
+			// replay on the real code: small-scope search driven by the function's own contract (replay.go)
+			tr := time.Now()
+			res := smallScopeReplay(repo, opt.repo, a.fn)
+			a.worst.Attempts = append(a.worst.Attempts, Attempt{Solver: "replay", Verdict: res.Verdict, Secs: round3(time.Since(tr).Seconds()), Out: res.Detail})
+			if res.Verdict == "confirmed" && !replayPrinted[a.fn] {
+				replayPrinted[a.fn] = true
+				fmt.Printf("REPLAY: %s\n", res.Detail)
+			}
+		}
 		path := writeReplay(opt, a, outDir)
 		suffix := ""
 		if !a.confirmed() {
@@ -478,22 +488,22 @@ func runCheck(opt *checkOpts) int {
 			"obligations": nObl, "discharged": nDis, "checker_cmd": checker,
 			"trusted_base": []string{"golang.org/x/tools v0.50.0 go/packages + go/ssa (translation of /repo's source)", "govc VC generator (instruction semantics, loop cut points, state merging, SMT encoding)",
 				"z3 5.1.0, z3 4.8.12, cvc5 1.0.3", "SMT prelude axioms (strings, UTF-8/UTF-16, line geometry)", "assumed library contracts (strings, utf8, decimal, maps, sort) as listed under assumptions"},
-			"samples":                  samples,
-			"functions_under_contract": funcsUnder,
-			"lemmas":                   nLemmas,
-			"proved_postconditions":    clauseList,
-			"discharged_by_solver":     bySolver,
-			"solver_s":                 round3(solverSecs),
-			"slowest_obligation_s":     round3(slowest),
-			"vacuity_canaries":         nCanary,
-			"known_findings":           knownHit,
-			"known_finding_obligations_excluded": nKnownObl,
-			"stale_findings":           stale,
-			"undecided_clauses_of_the_property": und,
-			"bounded_standins":         boundedEv,
+			"samples":                               samples,
+			"functions_under_contract":              funcsUnder,
+			"lemmas":                                nLemmas,
+			"proved_postconditions":                 clauseList,
+			"discharged_by_solver":                  bySolver,
+			"solver_s":                              round3(solverSecs),
+			"slowest_obligation_s":                  round3(slowest),
+			"vacuity_canaries":                      nCanary,
+			"known_findings":                        knownHit,
+			"known_finding_obligations_excluded":    nKnownObl,
+			"stale_findings":                        stale,
+			"undecided_clauses_of_the_property":     und,
+			"bounded_standins":                      boundedEv,
 			"preconditions_assumed_at_entry_points": entryPre,
-			"max_query_kB":             maxQuery / 1024,
-			"explanation":              "obligations = SMT queries generated from /repo's current source for the functions and lemmas listed (safety, frame, loop invariant entry/preservation, variants, call preconditions, postconditions); discharged = answered unsat. Refuted obligations that are listed known findings are reported separately and are not counted.",
+			"max_query_kB":                          maxQuery / 1024,
+			"explanation":                           "obligations = SMT queries generated from /repo's current source for the functions and lemmas listed (safety, frame, loop invariant entry/preservation, variants, call preconditions, postconditions); discharged = answered unsat. Refuted obligations that are listed known findings are reported separately and are not counted.",
 		},
 		"assumptions": assumptions,
 	}
@@ -527,6 +537,8 @@ func loadBounded(verif string) []Bounded {
 	}
 	return bs
 }
+
+var replayPrinted = map[string]bool{}
 
 func round3(f float64) float64 { return float64(int(f*1000+0.5)) / 1000 }
 
